@@ -3,6 +3,7 @@ package exec
 import (
 	"bytes"
 	"context"
+	"encoding/json"
 	"fmt"
 	"math/big"
 	"strings"
@@ -167,6 +168,18 @@ func (e *env) labC03(parent, blk *types.Block, rcpts *types.Receipts, before map
 						sum.Add(sum, n)
 					}
 				}
+				if off := new(big.Int).Add(sum, fee); off.Sign() < 0 && isSetOwnerSelf(tx) {
+					if nb := prev[simnode.AcctKey([]byte(types.AergoName))]; nb != nil && nb.Balance != nil && new(big.Int).Neg(off).Cmp(nb.Balance) == 0 {
+						// listed known finding: v1setOwner naming the sender itself burns the name contract's balance
+						x.Probe("setowner-naming-the-sender")
+						if x.FailKnownOrStop("C03", "success-delta-not-balanced", knownSetOwnerSig, fmt.Sprintf("%s: the balance of %s (%s) left it and reached nobody: %v", what, types.AergoName, nb.Balance, d), e.stepIdx) {
+							root = newRoot
+							prev = cur
+							continue
+						}
+						return
+					}
+				}
 				if new(big.Int).Add(sum, fee).Sign() != 0 {
 					x.Fail("C03", "success-delta-not-balanced", fmt.Sprintf("type%d", body.GetType()), fmt.Sprintf("%s: Σ balance deltas = %s, expected -fee; delta %v", what, sum, d), e.stepIdx)
 					return
@@ -279,4 +292,49 @@ func sentAway(script string, self []byte) *big.Int {
 		}
 	}
 	return sum
+}
+
+const knownSetOwnerSig = "setowner-naming-the-sender"
+
+// isSetOwnerSelf: a v1setOwner transaction to the name contract whose argument is the sender's own address.
+func isSetOwnerSelf(tx *types.Tx) bool {
+	b := tx.GetBody()
+	if string(b.GetRecipient()) != types.AergoName || b.GetType() != types.TxType_GOVERNANCE {
+		return false
+	}
+	var ci types.CallInfo
+	if json.Unmarshal(b.GetPayload(), &ci) != nil || ci.Name != types.SetContractOwner || len(ci.Args) != 1 {
+		return false
+	}
+	a, _ := ci.Args[0].(string)
+	return a == types.EncodeAddress(b.GetAccount())
+}
+
+// setOwnerSelfBurn returns what the listed known finding burns in this block: the balance the name
+// contract holds when a successful v1setOwner names its own sender (0 if there is no such transaction).
+func setOwnerSelfBurn(blk *types.Block, rs []*types.Receipt, before map[string]*simnode.AcctDump) *big.Int {
+	acc := new(big.Int)
+	if nb := before[simnode.AcctKey([]byte(types.AergoName))]; nb != nil && nb.Balance != nil {
+		acc.Set(nb.Balance)
+	}
+	for i, tx := range blk.GetBody().GetTxs() {
+		b := tx.GetBody()
+		if string(b.GetRecipient()) != types.AergoName || i >= len(rs) || rs[i].Status != "SUCCESS" {
+			continue
+		}
+		var ci types.CallInfo
+		if json.Unmarshal(b.GetPayload(), &ci) != nil {
+			continue
+		}
+		switch ci.Name {
+		case types.SetContractOwner:
+			if isSetOwnerSelf(tx) {
+				return acc
+			}
+			acc = new(big.Int)
+		default:
+			acc.Add(acc, b.GetAmountBigInt())
+		}
+	}
+	return new(big.Int)
 }
